@@ -110,3 +110,58 @@ def solve_with_truth(e, pins, extra=(), timeout=20000, rounds=8):
         if consistent:
             return m
     return None
+
+
+def setbytes_obligation(prog, ck, T, M, pre):
+    """real (*fiat.T).SetBytes on bit-vectors: accepts exactly the 32-byte encodings of values < M and hands the
+    decoded value to the Montgomery conversion; other lengths are refused.  Returns (verdict, detail)."""
+    FIAT = MOD + '/sm2/internal/fiat'
+    eng = new_engine(prog, timeout_ms=60000)
+    seen = {}
+
+    def tomont(e, a, ins):
+        seen['limbs'] = [tobv(x, 64) for x in e.load(a[1])]
+        e.store(a[0], [0, 0, 0, 0])
+        return None
+    eng.intercepts[FIAT + '.%sToMontgomery' % pre] = tomont
+    bad = []
+
+    def run_sb(e):
+        v = sym_bytes(e, 'v', 32)
+        obj = e.new_obj([[0, 0, 0, 0]], FIAT + '.' + T)
+        seen.clear()
+        out = e.call_outcome('(*%s.%s).SetBytes' % (FIAT, T), [Ptr(obj, ()), e.new_slice(list(v))])
+        if out.kind != 'return':
+            return ('cex', 'panic ' + out.panic.msg, None, v)
+        p, err = out.values
+        V = bytes_to_bv(v)
+        if err is None:
+            if 'limbs' not in seen:
+                return ('cex', 'accepted without converting', None, v)
+            val = z3.Concat(seen['limbs'][3], seen['limbs'][2], seen['limbs'][1], seen['limbs'][0])
+            r = e.prove(z3.And(z3.ULT(V, z3.BitVecVal(M, 256)), val == V))
+        else:
+            r = e.prove(z3.UGE(V, z3.BitVecVal(M, 256)))
+        return (r[0], 'accept/reject or decoded value wrong', r[1], v)
+    for r in eng.explore(run_sb):
+        if r[0] != 'proved':
+            bad.append(r)
+
+    def run_len(e):
+        rs = []
+        for L in (0, 1, 31, 33, 64):
+            obj = e.new_obj([[0, 0, 0, 0]], FIAT + '.' + T)
+            out = e.call_outcome('(*%s.%s).SetBytes' % (FIAT, T), [Ptr(obj, ()), e.new_slice([0] * L) if L else e.new_slice([])])
+            if out.kind != 'return' or out.values[1] is None:
+                rs.append(L)
+        return rs
+    lens_bad = eng.explore(run_len)[0]
+    ck.absorb(eng)
+    if not bad and not lens_bad:
+        return True, 'decode accepts exactly 32-byte encodings of values < m and hands the value to the Montgomery conversion', None
+    wit = None
+    for b in bad:
+        if b[0] == 'cex' and b[2] is not None:
+            wit = model_bytes(b[2], b[3])
+            break
+    return ('cex' if wit is not None or lens_bad or any(b[0] == 'cex' for b in bad) else 'unknown'), 'SetBytes misjudges encodings (%s; lengths %s)' % (bad[0][1] if bad else '', lens_bad), wit
